@@ -15,7 +15,7 @@ FOCUS = {
     'C03': dict(roots=[(0, 1), (1, 1)], armed=['c03'], faults=['F-ORD'], hist=[]),
     'C04': dict(roots=[(0, 1), (1, 1)], armed=['c04'], faults=['F-ORD', 'F-BULK'], hist=['sched']),
     'C05': dict(roots=[(0, 1), (1, 1)], armed=['c05'], faults=['F-ORD'], hist=['sched']),
-    'C07': dict(roots=[(0, 1), (1, 1), (0, 0), (1, 0)], armed=['c07'],
+    'C07': dict(roots=[(0, 1), (1, 1), (0, 0), (1, 0)], armed=['c07'], level='fault_enumeration', variants=True,
                 faults=['F-ORD', 'F-NOT', 'F-BULK', 'F-ITER'], hist=['shadow'], p_fault=[0.2, 0.3, 0.4]),
     'C08': dict(roots=[(0, 0), (1, 0)], armed=['c08'], faults=['F-ORD', 'F-BULK'], hist=['sched']),
 }
@@ -51,7 +51,13 @@ def execute(world, op):
     if kind == 'root':
         out = ops.new_root(world, op)
         world.rec({'op': op, 'out': out['out']})
+        world.history.append(op)
         return out
+    if kind == 'sched_b':
+        if not world.quiet:
+            second_schedule(world, op)
+        return {'out': 'ok', 'fault': False, 'cls': 'sched_b', 'keys': []}
+    world.history.append(op)
     rep = world.reps[op['g']] if 0 <= op.get('g', 0) < len(world.reps) else None
     if rep is None:
         return {'out': 'skipped', 'fault': False, 'cls': 'skip', 'keys': []}
@@ -170,6 +176,95 @@ def gen_step(world, rng, cfg):
     return op
 
 
+SCHED_FIELDS = {'C01': ['presence', 'ever'], 'C03': ['timelines'], 'C04': ['ids', 'counts'], 'C05': ['stream'],
+                'C08': ['presence', 'ever', 'ids', 'stream']}
+
+
+def sched_obs(world):
+    out = []
+    for o in snapshot_world(world):
+        o = dict(o)
+        o['stream'] = tuple(sorted(o['stream'], key=repr))   # per-instant sets: order inside an instant is free
+        out.append(o)
+    return out
+
+
+def second_schedule(world, op):
+    """the same client programs under another interleaving give the same final observables"""
+    by_uid = {o.get('uid'): o for o in world.history if o.get('uid') is not None}
+    roots = [o for o in world.history if o['op'] == 'root']
+    order = [by_uid[u] for u in op['order'] if u in by_uid]
+    w2 = World(world.focus, world.profile)
+    w2.armed, w2.quiet = world.armed, True
+    try:
+        for o in roots + order:
+            execute(w2, o)
+    except Violation as v:
+        raise Violation(v.oracle, v.sub + '(schedule-B)', v.detail)
+    a, b = sched_obs(world), sched_obs(w2)
+    world.evals += 1
+    world.count('sched.compared')
+    for i, (x, y) in enumerate(zip(a, b)):
+        d = obs.diff(x, y)
+        mine = [f for f in d if f in SCHED_FIELDS.get(world.focus, [])]
+        if mine:
+            raise Violation(world.focus + '.schedule', ','.join(mine),
+                            {'replica': i, 'schedule_A': {k: x[k] for k in mine}, 'schedule_B': {k: y[k] for k in mine}})
+        if d:
+            raise Precondition('schedule dependence outside the focus: %s' % d)
+
+
+def gen_sched_run(world, rng, cfg):
+    """commuting client programs: each client owns disjoint pairs and its concrete calls are
+    drawn from a per-client PRNG against a private model, so they are identical under every
+    schedule; returns (roots, ops in schedule A, sched_b pseudo-op)"""
+    from .model import ModelGraph
+    spec = FOCUS[world.focus]
+    d, r = rng.choice(spec['roots'])
+    root = {'op': 'root', 'directed': bool(d), 'removal': bool(r)}
+    nodes = cfg['nodes']
+    allpairs = [(u, v) for i, u in enumerate(nodes) for v in (nodes if d else nodes[i:])]
+    rng.shuffle(allpairs)
+    nc = rng.randint(2, 4)
+    progs = []
+    uid = 0
+    for c in range(nc):
+        own = allpairs[c::nc][:rng.randint(1, 3)]
+        if not own:
+            continue
+        crng = random.Random(rng.getrandbits(62))
+        pm = ModelGraph(bool(d), True)     # private model, removal-style runs drive the span classes
+        prog = []
+        for _ in range(crng.randint(1, max(2, cfg['steps'] // nc))):
+            u, v = crng.choice(own)
+            if not d and crng.random() < cfg['p_swap']:
+                u, v = v, u
+            want = 'ooo' if (crng.random() < cfg['p_fault'] and pm.runs(pm.key(u, v))) else None
+            t, e, cls = gen.gen_span(crng, pm, u, v, cfg, want)
+            if not r:
+                e = e if crng.random() < 0.3 else None
+            if cls != 'ooo':
+                pm.apply_add(u, v, t, e)
+            prog.append({'op': 'add', 'g': 0, 'u': u, 'v': v, 't': t, 'e': e, 'sp': 'pos', 'c': c, 'uid': uid})
+            uid += 1
+        progs.append(prog)
+
+    def interleave():
+        idx = [0] * len(progs)
+        out = []
+        live = [i for i, p in enumerate(progs) if p]
+        while live:
+            i = rng.choice(live)
+            out.append(progs[i][idx[i]])
+            idx[i] += 1
+            if idx[i] == len(progs[i]):
+                live.remove(i)
+        return out
+    a = interleave()
+    b = interleave()
+    return [root], a, {'op': 'sched_b', 'order': [o['uid'] for o in b]}
+
+
 def gen_roots(world, rng, cfg):
     spec = FOCUS[world.focus]
     n = 1 if rng.random() < 0.7 else 2
@@ -223,26 +318,31 @@ def run(focus, seed=None, ops_list=None, profile=None, keep_log=False):
     rng = random.Random(seed) if ops_list is None else None
     signal.signal(signal.SIGALRM, _alarm)
     signal.alarm(30)
-    executed = []
+    executed, outs = [], []
     try:
         if ops_list is None:
             cfg = gen.swarm(rng, focus)
             if 'p_fault' in FOCUS[focus]:
                 cfg['p_fault'] = rng.choice(FOCUS[focus]['p_fault'])
             world.rec({'seed': seed, 'cfg': {k: v for k, v in cfg.items() if k != 'w'}})
-            for op in gen_roots(world, rng, cfg):
-                executed.append(op)
-                execute(world, op)
-            for _ in range(cfg['steps']):
-                op = gen_step(world, rng, cfg)
+            if 'sched' in FOCUS[focus]['hist'] and rng.random() < 0.3:
+                roots, a, b = gen_sched_run(world, rng, cfg)
+                plan = roots + a + [b]
+            else:
+                plan = None
+                for op in gen_roots(world, rng, cfg):
+                    executed.append(op)
+                    outs.append(execute(world, op))
+            for i in range(len(plan) if plan else cfg['steps']):
+                op = plan[i] if plan else gen_step(world, rng, cfg)
                 if op is None:
                     continue
                 executed.append(op)
-                execute(world, op)
+                outs.append(execute(world, op))
         else:
             for op in ops_list:
                 executed.append(op)
-                execute(world, op)
+                outs.append(execute(world, op))
         final_checks(world)
     except Violation as v:
         res.status = 'violation'
@@ -260,6 +360,7 @@ def run(focus, seed=None, ops_list=None, profile=None, keep_log=False):
     finally:
         signal.alarm(0)
     res.ops = executed
+    res.outs = outs
     res.stats = world.stats
     res.trans = world.trans
     res.evals = world.evals
@@ -268,3 +369,28 @@ def run(focus, seed=None, ops_list=None, profile=None, keep_log=False):
     if keep_log:
         res.log = world.log
     return res
+
+
+def fault_variants(res, limit=12):
+    """fault enumeration: for every failed bulk call of a finished run, the same history with
+    the failing element moved to every other position / the iterable failing after every
+    other count (each variant is a complete, independent history)"""
+    out = []
+    for i, (op, o) in enumerate(zip(res.ops, res.outs)):
+        if op.get('op') != 'bulk' or not o.get('fault') or op.get('kind') != 'from':
+            continue
+        items = op['items']
+        if op.get('raise_after') is not None:
+            for k in range(len(items) + 1):
+                if k != op['raise_after']:
+                    out.append(res.ops[:i] + [dict(op, raise_after=k)] + res.ops[i + 1:])
+        elif o.get('out') == 'ValueError' and o.get('applied') is not None and o['applied'] < len(items):
+            k = o['applied']
+            bad = items[k]
+            rest = items[:k] + items[k + 1:]
+            for j in range(len(rest) + 1):
+                if j != k:
+                    out.append(res.ops[:i] + [dict(op, items=rest[:j] + [bad] + rest[j:])] + res.ops[i + 1:])
+        if len(out) >= limit:
+            break
+    return out[:limit]
